@@ -16,7 +16,7 @@ func init() {
 	Registry["C20"] = c20
 	Metas["C20"] = Meta{Level: "other", NeedCG: true,
 		Technique: "static analysis: edge-dominance / all-paths predicates on the admission gates, closure free-variable provenance for the authority set, seal/open-nonce pairing on every path, copy-count dataflow of io.Reader implementations, bound-before-slice on frame lengths",
-		Explain:   "Static analysis of the p2p transport and admission code. Decided: (R1) Switch.AddPeerWithConnection adds a peer only after, on every path, the address filter, the secret-connection handshake (when enabled), the refuse-list filter, the public-key filter, the node handshake (which includes the certificate-authority check), the announced-key==authenticated-key test, the self test and the data exchange all passed; peers.Add has no other caller; every failing gate closes the connection; (R2) the CA filter reads the CURRENT validator set each time it runs (the ** is dereferenced inside the closure); the refuse-list filter queries the list at call time; (R3) every secretbox.Seal/Open with the connection's nonce is followed on all success paths by the two-step nonce increment, a failed Open returns an error without incrementing, the two directions start from nonces that differ, and incr2Nonce steps by two; (R4) every Read(p []byte) in p2p/types returns, on each path, the count produced by the copy into p on that path; (R5) the remote identity is stored only after the challenge signature verified under that key, and the challenge derives from both ephemeral keys; (R6) the chunk length is bounded before the frame is sliced; the receive-capacity check precedes reassembly; (R7) nextMsgPacket marks EOF exactly when the remainder fits one packet and the receiver returns the buffer exactly on EOF. NOT decided: cryptographic strength, behaviour under tampering at run time.",
+		Explain:   "Static analysis of the p2p transport and admission code. Decided: (R1) Switch.AddPeerWithConnection adds a peer only after, on every path, the address filter, the secret-connection handshake (when enabled), the refuse-list filter, the public-key filter, the node handshake (which includes the certificate-authority check), the announced-key==authenticated-key test, the self test and the data exchange all passed; peers.Add has no other caller; every failing gate closes the connection; (R2) the CA filter reads the CURRENT validator set each time it runs (the ** is dereferenced inside the closure); the refuse-list filter queries the list at call time; (R3) every secretbox.Seal/Open with the connection's nonce is followed on all success paths by the two-step nonce increment, a failed Open returns an error without incrementing, the two directions start from nonces that differ, and incr2Nonce steps by two; (R4) every Read(p []byte) in p2p/types returns, on each path, the count produced by the copy into p on that path; (R5) the remote identity is stored only after the challenge signature verified under that key, and the challenge derives from both ephemeral keys; (R6) the chunk length is bounded before the frame is sliced; the receive-capacity check precedes reassembly; (R7) nextMsgPacket marks EOF exactly when the remainder fits one packet and the receiver returns the buffer exactly on EOF. (R2 also) nothing is read through the ** when the filter is built; (R8) sendMsgPacket reports exhaustion only when nothing was pending or the write failed. NOT decided: cryptographic strength, behaviour under tampering at run time.",
 		Assume:    []string{"NaCl secretbox/box are secure", "go-crypto VerifyBytes is sound"},
 	}
 }
